@@ -292,7 +292,7 @@ async def settle(rounds: int = 50) -> None:
 LOOP_ERRORS: List[Dict[str, Any]] = []
 
 
-def run(coro: Any, timeout: float = 60.0, record_loop_errors: bool = True) -> Any:
+def run(coro: Any, timeout: float = 60.0, record_loop_errors: bool = True, sync_executor: bool = False) -> Any:
     """Run a coroutine on a fresh event loop with a wall-clock guard.  Exceptions reaching the loop's
     exception handler are collected in LOOP_ERRORS (cleared at the start of every run)."""
     loop = asyncio.new_event_loop()
@@ -300,6 +300,16 @@ def run(coro: Any, timeout: float = 60.0, record_loop_errors: bool = True) -> An
     LOOP_ERRORS.clear()
     if record_loop_errors:
         loop.set_exception_handler(lambda _l, c: LOOP_ERRORS.append(c))
+    if sync_executor:
+        # run executor jobs (option construction, getaddrinfo, file reads) inline: no thread timing in the schedule
+        def _inline(_executor: Any, fn: Any, *args: Any) -> Any:
+            fut = loop.create_future()
+            try:
+                fut.set_result(fn(*args))
+            except BaseException as e:      # noqa: B902
+                fut.set_exception(e)
+            return fut
+        loop.run_in_executor = _inline      # type: ignore
     try:
         return loop.run_until_complete(asyncio.wait_for(coro, timeout))
     finally:
